@@ -11982,13 +11982,19 @@ CK_RV SoftHSM::CreateObject(CK_SESSION_HANDLE hSession, CK_ATTRIBUTE_PTR pTempla
 	if (object == NULL || !p11object->init(object))
 	{
 		delete p11object;
+		// Do not leave a half-built object behind
+		if (object != NULL) object->destroyObject();
 		return CKR_GENERAL_ERROR;
 	}
 
 	rv = p11object->saveTemplate(token, isPrivate != CK_FALSE, attribs,attribsCount,op);
 	delete p11object;
 	if (rv != CKR_OK)
+	{
+		// The template was rejected: remove the object that was created for it
+		object->destroyObject();
 		return rv;
+	}
 
 	if (op == OBJECT_OP_CREATE)
 	{
@@ -11997,6 +12003,7 @@ CK_RV SoftHSM::CreateObject(CK_SESSION_HANDLE hSession, CK_ATTRIBUTE_PTR pTempla
 		    !object->setAttribute(CKA_LOCAL, false) ||
 		    !object->commitTransaction()))
 		{
+			object->destroyObject();
 			return CKR_GENERAL_ERROR;
 		}
 
@@ -12007,6 +12014,7 @@ CK_RV SoftHSM::CreateObject(CK_SESSION_HANDLE hSession, CK_ATTRIBUTE_PTR pTempla
 		    !object->setAttribute(CKA_NEVER_EXTRACTABLE, false) ||
 		    !object->commitTransaction()))
 		{
+			object->destroyObject();
 			return CKR_GENERAL_ERROR;
 		}
 	}
